@@ -669,6 +669,7 @@ theorem applyStep_sim (E : Env) (hmono : ∀ p v, rec' p v ≠ .unmodelled → a
         intro r hr
         split at hr
         · obtain ⟨ie, _, hr⟩ := D04C.bindOk hr
+          obtain ⟨t, _, hr⟩ := D04C.bindOk hr
           simp at hr; subst hr; exact RV.of_clean rfl
         · simp at hr; subst hr; exact RV.of_clean rfl
       · split
@@ -690,6 +691,7 @@ theorem applyStep_sim (E : Env) (hmono : ∀ p v, rec' p v ≠ .unmodelled → a
       intro r hr
       split at hr
       · obtain ⟨ie, _, hr⟩ := D04C.bindOk hr
+        obtain ⟨t, _, hr⟩ := D04C.bindOk hr
         simp at hr; subst hr; exact RV.of_clean rfl
       · simp at hr; subst hr; exact RV.of_clean rfl
     · split
@@ -710,6 +712,7 @@ theorem applyStep_sim (E : Env) (hmono : ∀ p v, rec' p v ≠ .unmodelled → a
       intro r hr
       split at hr
       · obtain ⟨ie, _, hr⟩ := D04C.bindOk hr
+        obtain ⟨t, _, hr⟩ := D04C.bindOk hr
         simp at hr; subst hr; exact RV.of_clean rfl
       · simp at hr; subst hr; exact RV.of_clean rfl
     · refine Sim.bind (R := RL) ?_ fun r2 r2' hr2 => ?_
